@@ -293,6 +293,18 @@ def check_rotation(case, ctx):
         if n in A:
             ok = peak_ok & ((dpm_cond < 1e4) if n == "dpm" else True)
             A[n], B[n] = _mask(A[n], ok), _mask(B[n], ok)
+    # a relabelling changes neither the data nor their order: where the contenders for the peak direction are *identical*
+    # columns (mirror-symmetric spectra) the sums tie exactly in any summation order, the choice is made by position and must
+    # therefore follow the labels; only near-ties of different columns are ill-conditioned
+    tie = np.zeros(dp_ok.shape, dtype=bool)
+    tol_ = 1e-9 if case["dtype"] == "float64" else 1e-4
+    for lead_, idx, E in _positions(da, True):
+        col = E.sum(axis=0)
+        top = [j for j in range(len(col)) if col[j] >= col.max() * (1 - tol_)]
+        tie[idx] = len(top) >= 2 and all(np.array_equal(E[:, j], E[:, top[0]]) for j in top)
+    if tie.any():
+        ctx.label("dp-exact-tie(judged)")
+    dp_ok = dp_ok | tie
     A["dp"], B["dp"] = _mask(A["dp"], dp_ok), _mask(B["dp"], dp_ok)
     A["dm"], B["dm"] = _mask(A["dm"], dm_cond < 1e4), _mask(B["dm"], dm_cond < 1e4)
     # rounding of the relabelling itself: spacing of new labels differs from the old by ~1e-13 relative
